@@ -16,15 +16,19 @@ class Shim:
 
 class CfgObligation:
     def __init__(self, name, abstractions, functions, bounds, must_hold, witnesses, false_claims, concretise=None, fail=None,
-                 static_checks=()):
+                 static_checks=(), fallback=None):
         """must_hold:    [(query name, Abstraction, negated-obligation assertions)]  -> each must be unsat
         witnesses:    same shape, each must be SAT (the good path exists: the obligation is not vacuous)
         false_claims: same shape, deliberately false obligations: each must be SAT (the abstraction can refute)
         static_checks: [(text, ok: bool)] extractor-level facts that must be true (else inconclusive)
-        concretise:   fn(ctx, query name, candidate path) -> (status, text) for a candidate path, or None"""
+        concretise:   fn(ctx, query name, candidate path) -> (status, text) for a candidate path, or None
+        fallback:     fn(ctx, failed static checks) -> (status, text): when the code no longer has the shape the extractor
+                      recognises, the departure itself is a CANDIDATE; the fallback replays the property's oracle natively
+                      ("violated" only if that reproduces, otherwise the obligation stays inconclusive)"""
         self.name, self.abstractions, self.functions, self.bounds = name, abstractions, functions, bounds
         self.must_hold, self.witnesses, self.false_claims = must_hold, witnesses, false_claims
         self.concretise, self.fail, self.static_checks = concretise, fail, list(static_checks)
+        self.fallback = fallback
 
 
 def decide_cfg(ctx, obligations, workdir, jobs=4):
@@ -48,8 +52,16 @@ def decide_cfg(ctx, obligations, workdir, jobs=4):
                  "loops_cut_at": sorted(set("bb%d after %d iterations" % (h, k) for a in ob.abstractions for _, h, k in a.cuts))}
         problems = [p for a in ob.abstractions for p in a.problems] + [t for t, ok in ob.static_checks if not ok]
         if ob.fail or problems:
-            report(ctx, shim, "inconclusive", "not run", 0.0, 0, False, None,
-                   [ob.fail or ("extractor: " + "; ".join(problems[:4]))], extra)
+            status, why = "inconclusive", ob.fail or ("extractor: " + "; ".join(problems[:4]))
+            if not ob.fail and getattr(ob, "fallback", None) is not None:
+                try:
+                    st, text = ob.fallback(ctx, problems)
+                    if st == "violated":
+                        status = "violated"
+                    why = "%s; %s" % (why, text)
+                except Exception as e:
+                    why = "%s; fallback replay failed: %s" % (why, e)
+            report(ctx, shim, status, "not run", 0.0, 0, False, None, [why], extra)
             continue
         allq = ob.q["must"] + ob.q["wit"] + ob.q["false"]
         status, cross, secs, sat_q, reasons = engine.verdict(ob.q["must"])
